@@ -3,10 +3,10 @@ package main
 // Loops, map ranges, calls.
 
 import (
-	"os"
 	"fmt"
 	"go/token"
 	"go/types"
+	"os"
 	"sort"
 	"strings"
 
@@ -809,6 +809,12 @@ func specVarsFor(fn *ssa.Function, args []*Val, results []*Val) map[string]*Val 
 	}
 	for i, n := range names {
 		if i < len(args) && n != "" && n != "_" {
+			vars[n] = args[i]
+		}
+	}
+	// a renamed parameter keeps answering to the name the contract uses
+	for i, n := range aliasParams(fn) {
+		if i < len(args) {
 			vars[n] = args[i]
 		}
 	}
